@@ -619,12 +619,12 @@ func (s Schema) Parse() (Schema, error) {
 
 		// don't Remove if in Add
 		for _, add := range state.Add {
-			if slices.Contains(state.Remove, add) {
-				state.Remove = slicesWithout(state.Remove, add)
-
-				// check if exists
-			} else if !slices.Contains(states, add) {
+			// check if exists (first: a missing state listed in both relations
+			// must not survive in Add)
+			if !slices.Contains(states, add) {
 				state.Add = slicesWithout(state.Add, add)
+			} else if slices.Contains(state.Remove, add) {
+				state.Remove = slicesWithout(state.Remove, add)
 			}
 		}
 
